@@ -281,6 +281,9 @@ def run(chk):
     patterns(chk, q)
     widths(chk, q)
     pad_extract(chk, rng)
+    from .. import apirules
+    apirules.run(chk, 'find_peaks', 'C19')
+    apirules.run(chk, 'moving', 'C19')
 
 
 def replay(chk, path):
